@@ -2,7 +2,7 @@
 # usage: confirm_seed.sh <ID> <test file relative dest dir> <demo file> <run regex> <pkg>
 # confirms: patch applied -> build ok, suite = baseline, demo FAILS ; patch reverted -> demo PASSES
 id=$1; dest=$2; demo=$3; rx=$4; pkg=$5
-wt=/var/tmp/wt-$id; sd=/var/tmp/seed-$id
+wt=${WT:-/var/tmp/wt-$id}; sd=/var/tmp/seed-$id
 export GOFLAGS=-mod=mod GOPROXY=off
 cd $wt || exit 2
 git checkout -q -- . ; git clean -fdq
